@@ -1,11 +1,13 @@
 package apph
 
 import (
+	"bytes"
 	"encoding/base64"
 	"encoding/hex"
 	"encoding/json"
 	"fmt"
 	"math/big"
+	"reflect"
 	"sort"
 	"strings"
 
@@ -352,6 +354,9 @@ type Snap struct {
 	Params     Params
 	TotalPower int64
 	Raw        map[string]string // path|key -> code:value, for the C19 byte comparison
+	// answers of different query paths about the same committed state that contradict each other
+	// (the "stakes" of an owner vs the stakes it owns in the delegatee records of the same height)
+	Inconsistent []string `json:",omitempty"`
 }
 
 func num(v interface{}) int64 {
@@ -544,6 +549,40 @@ func (n *Node) Snapshot(height int64, wa [][]byte, wh [][]byte) (*Snap, error) {
 			p.Major = optOf(mo).Raw
 		}
 		s.Props = append(s.Props, p)
+	}
+	// the "stakes" query of every watched owner against the delegatee records just read (every
+	// delegatee is a watched address): same set of stake hashes, same powers
+	for _, a := range wa {
+		r, err := q("stakes", a)
+		if err != nil {
+			return nil, err
+		}
+		if r.Code != 0 {
+			continue
+		}
+		got := map[string]int64{}
+		var arr []interface{}
+		_ = json.Unmarshal(r.Value, &arr)
+		for _, x := range arr {
+			if m, ok := x.(map[string]interface{}); ok {
+				st := stakeOf(m)
+				got[string(st.Hash)+"|"+string(st.To)] = st.Power
+			}
+		}
+		want := map[string]int64{}
+		for _, d := range s.Dels {
+			if d == nil {
+				continue
+			}
+			for _, st := range d.Stakes {
+				if bytes.Equal(st.From, a) {
+					want[string(st.Hash)+"|"+string(st.To)] = st.Power
+				}
+			}
+		}
+		if !reflect.DeepEqual(got, want) {
+			s.Inconsistent = append(s.Inconsistent, fmt.Sprintf("height %d: the stakes query of %X lists %d stakes, the delegatee records of that height hold %d stakes of this owner", height, a[:4], len(got), len(want)))
+		}
 	}
 	r, err := q("gov_params", nil)
 	if err != nil {
